@@ -61,30 +61,29 @@ ASSUMPTIONS = ["templates have typesGH 5-tuples on every node, no wildcard atoms
 TESTED_NOT_PROVED = [
     "RDKit half: substrate parsing and result serialisation/standardisation are invariant under rewriting (metamorphic oracle on the "
     "implementation: equal sets of Standardize.fit strings across writings, strategies, repeated calls)",
-    "COMPONENT/BACKTRACK under changes of the INSERTION ORDER (proved: renumbering with the order kept, every strategy; any re-ordering, "
-    "exhaustive strategy; comp <= all at match level); every rewriting the generators produce also permutes the order and is compared "
-    "with the implementation for all three strategies",
     "explicit-hydrogen path (pattern keeps X-H bonds: re-matching on the hydrogen-expanded substrate), the _explicit_h stage and rule "
     "preparation in the default mode: modelled and compared on every run, not covered by the invariance theorems (new hydrogen ids and "
-    "h_pairs ids are allocated in numeric order: results are isomorphic, not literally renumbered)",
-    "the two writings handed to the model are the same graph up to numbering and order (premise same_graph of the set-level theorem): "
-    "the oracle checks the parsed hosts for isomorphism; the other premises (side_okb) are evaluated inside the model on every writing",
+    "h_pairs ids are allocated in numeric order: results are isomorphic, not renumbered)",
+    "the two writings handed to the model are the same graph up to numbering and order (premise same_graph of the set-level theorems): "
+    "the oracle checks the parsed hosts for isomorphism; the premises side_okb are evaluated inside the model on every writing; the "
+    "component-aware bound comp_bound (premise for COMPONENT/BACKTRACK) is not evaluated per case",
     "repeated calls on the same reactor object / same template object return the same list (oracle; the model is a pure function)",
 ]
 LEVEL_TEXT = ("Machine-checked proof (Coq) over an executable model of the whole graph-level rule-application pipeline (SynRule preparation, "
               "search strategies ALL/COMPONENT/BACKTRACK over a verified monomorphism enumerator, pruning by rule automorphisms, gluing). "
               "Proved for all inputs: (1) every stage and the result list commute literally with any injective renumbering of substrate "
-              "and template, for every strategy (end to end from the template in implicit-hydrogen mode); (2) for the exhaustive strategy "
-              "the SET of glued ITS graphs is invariant under arbitrary rewriting of both inputs (renumbering plus any re-ordering of "
-              "atoms, bonds and bond orientation): the glue depends only on the graphs as functions and the match as a set of pairs, "
-              "matches related by a rule automorphism glue to the same ITS, pruning keeps one match of every class; (3) every "
-              "component-aware match is an exhaustive match and BACKTRACK returns the COMPONENT result whenever that is non-empty. "
-              "Scope of (1)-(2): patterns without explicit X-H bonds, before the _explicit_h stage. The model is tied to the Python code on "
-              "every run by comparing, per writing and strategy, match counts and the multiset of glued ITS graphs, and the theorems' "
-              "premises are evaluated on every writing; the RDKit half (parsing, canonical output), COMPONENT/BACKTRACK under re-ordering "
-              "and the explicit-hydrogen path are covered by the correspondence and a metamorphic oracle, not by proof.")
+              "and template, for every strategy; (2) for every strategy the SET of glued ITS graphs is invariant under arbitrary rewriting "
+              "of both inputs (renumbering plus any re-ordering of atoms, bonds and bond orientation): raw match sets coincide, the glue "
+              "depends only on the graphs as functions and on the match as a set of pairs, matches related by a rule automorphism glue to "
+              "the same ITS, pruning keeps one match of every class; in implicit-hydrogen mode this holds from the template ITS (rule "
+              "preparation only depends on the template as a graph); (3) every component-aware match is an exhaustive match and BACKTRACK "
+              "returns the COMPONENT result whenever that is non-empty. Scope of (1)-(2): patterns without explicit X-H bonds, before the "
+              "_explicit_h stage. The model is tied to the Python code on every run by comparing, per writing and strategy, match counts "
+              "and the multiset of glued ITS graphs, and the theorems' premises are evaluated on every writing; the RDKit half (parsing, "
+              "canonical output) and the explicit-hydrogen path are covered by the correspondence and a metamorphic oracle, not by proof.")
 LEVEL_NOTE = ("Trusted: Coq kernel + vm_compute; the models and encoders; VF2 and RDKit contracts (monitored, not proved). Imports, read-only: "
-              "C03 glue lemmas (proof/C03_Proof.v), C06 strategy specification (proof/C06_*.v), C11 pruning completeness (proof/C11_Dedup.v).")
+              "C03 glue lemmas (proof/C03_Proof.v, C03_Glue.v, C03_Iso.v, C03_Backward.v), C06 strategy specification (lib/C06_Spec.v, "
+              "proof/C06_*.v), C11 pruning completeness (proof/C11_Dedup.v).")
 TECHNIQUE = "Coq proof about an executable Gallina model + per-run correspondence (vm_compute vs implementation) + metamorphic property oracle"
 DESIGN_REF = "DESIGN.md section 5 C05, section 7 row 17; notes/C05.md"
 
